@@ -25,6 +25,13 @@ RULE = ("random programs of 1-30 scripted tests (both ways of reaching the detec
         "with statements that must not run placed behind it); EXPECT_N_LEAKS with n in {0, L, L-1, L+1, random} at any position (also "
         "behind the failing check, also twice), IGNORE_ALL_LEAKS_IN_TEST (also twice); leaks placed in each of the three phases; "
         "FinalReport(k) with k in {0, outstanding, outstanding+-1}; reports kept below the 4096-byte buffer. "
+        "In ~55% of the programs further MemoryLeakWarningPlugin instances are woven in at executed positions (before / between / inside / "
+        "after tests, a few behind failing checks where they never run): constructed on a private detector or on the runner's detector "
+        "(the latter outside the checking window only), destroyed in any order, slots reused, several alive at once; blocks obtained / "
+        "released / reallocated through the private detector, also before the instance's first preTestAction; the instance's own "
+        "pre/postTestAction around such statements (leaking and clean) with a TestResult of its own; its FinalReport(k) with "
+        "k in {0, outstanding, outstanding+-1}; firstPlugin_ starts NULL and is left to the code, so that tests using the macros after "
+        "another instance was constructed / destroyed are frequent (styles: construct+destroy early, allocate early + report later, nested tests). "
         "non-trivial = at least two tests, one block outliving its test and one release of an earlier test's block or an expectation")
 ASSUMPTIONS = ["new/delete overloads are on (otherwise the plugin only prints a warning)",
                "the test does not call enable()/disable()/startChecking() on the detector itself, and does not misuse memory (C06)",
@@ -32,7 +39,12 @@ ASSUMPTIONS = ["new/delete overloads are on (otherwise the plugin only prints a 
                "cpputest_realloc is given malloc-family blocks or NULL only (anything else is a mismatch report, C06)",
                "plugins other than the leak plugin add their failures to the TestResult (the plugin compares failure counts)",
                "reports stay below the 4096-byte buffer (C14); beyond it only subset + total are demanded",
-               "tests run in the current process; failure counts stay below 2^32"]
+               "tests run in the current process; failure counts stay below 2^32",
+               "the runner's plugin is the first MemoryLeakWarningPlugin of the process and outlives the run (as in CommandLineTestRunner); the macros "
+               "after the death of the first plugin go through a dangling pointer",
+               "no plugin is constructed ON THE RUNNER'S DETECTOR inside a test (its constructor calls enable() there: the same as the test calling "
+               "enable() itself); statements through another instance go through a private detector of that instance",
+               "an instance's FinalReport is not asked between its preTestAction and its postTestAction"]
 BEFORE, IPRE, SETUP, BODY, TEARDOWN, IPOST = range(6)
 MAXID = 4096
 NSLOT = 8
@@ -89,6 +101,9 @@ def executed(t):
     a, fa = upto_fail(t[SETUP])
     b = [] if fa else upto_fail(t[BODY])[0]
     return t[IPRE] + a + b + upto_fail(t[TEARDOWN])[0] + t[IPOST]
+
+
+m_executed = executed      # the statements about other instances stand in the same lists
 
 
 def leaked(base, l):
@@ -541,9 +556,9 @@ def classify(s):
         kinds.add(cls)
         if own and len(L) != d:
             kinds.add("own-failed+leak")
-        if t[0]:
+        if any(not is_inst(st) for st in t[0]):
             kinds.add("outside-allocation")
-        if t[IPRE] or t[IPOST]:
+        if any(not is_inst(st) for st in t[IPRE] + t[IPOST]):
             kinds.add("inner-plugin-action")
         if any(st[0] == ":x" for st in t[IPRE] + t[IPOST]):
             kinds.add("inner-plugin-failure")
@@ -561,6 +576,55 @@ def classify(s):
     lab += sorted("test:" + k for k in kinds)
     out = leaked(1 + allocs(pre), trace(tests, tail))
     lab.append("final:" + ("silent" if len(out) == tbd else "report"))
+    # the further plugin instances
+    ik = set()
+    ins = Insts()
+    deleted = False
+    early = set()             # slots with an allocation made before the instance's first preTestAction
+    hadpre = set()
+    used = set()
+    base = 1 + allocs(pre)
+
+    def walk(lst, where):
+        nonlocal deleted
+        for st in lst:
+            if not is_inst(st):
+                continue
+            k, j = st[0], st[1]
+            if k == ":pn":
+                ik.add("new-shared" if st[2] else "new-private")
+                ik.add("new-" + where)
+                if j in used:
+                    ik.add("slot-reused")
+                used.add(j)
+                early.discard(j)
+                hadpre.discard(j)
+            ok, d = ins.step(st)
+            if k == ":pn" and len(ins.al) > 1:
+                ik.add("several-alive")
+            if k == ":pd":
+                deleted = True
+                ik.add("del-" + where)
+            if k in (":pa", ":pr") and j not in hadpre:
+                early.add(j)
+            if k == ":pb":
+                hadpre.add(j)
+            if d and d[0] == "post":
+                ik.add("own-test-leaks" if leaked(d[2], d[3]) else "own-test-clean")
+            if d and d[0] == "final":
+                ik.add("final-" + ("silent" if len(d[2]) == d[3] else "report") + ("-with-early-allocation" if j in early and d[2] else ""))
+    for t in tests:
+        walk(t[0], "between-tests")
+        base += allocs(t[0])
+        ex, L, own, ign, d, cls = test_facts(base, t)
+        if deleted and any(st[0] in (":e", ":i") for st in ex) and L and not own:
+            ik.add("macro-test-that-leaks-after-a-destruction" + ("(declared=leaked)" if len(L) == d and not ign else ""))
+        if ins.al and any(st[0] in (":e", ":i") for st in ex) and L:
+            ik.add("macro-test-that-leaks-with-instances-alive")
+        walk(ex, "inside-test")
+        base += allocs(ex)
+    walk(tail, "after-tests")
+    lab += sorted("inst:" + k for k in ik) if ik else ["inst:none"]
     return lab
 
 
@@ -572,22 +636,56 @@ def signature(s, o):
         t = o.split()
         i = 2
         base = 1 + allocs(pre)
+
+        def ents_at(i):
+            k = int(t[i], 16)
+            return [(int(t[i + 1 + 2 * j], 16), int(t[i + 2 + 2 * j], 16)) for j in range(k)], i + 1 + 2 * k
+        seen_del = False
         for ti, tt in enumerate(tests):
             nfail, nleak = int(t[i], 16), int(t[i + 1], 16)
-            k = int(t[i + 5], 16)
-            ents = [(int(t[i + 6 + 2 * j], 16), int(t[i + 7 + 2 * j], 16)) for j in range(k)]
-            i += 6 + 2 * k
+            ents, i = ents_at(i + 5)
             base += allocs(tt[0])
             ex, L, own, ign, d, cls = test_facts(base, tt)
             want = own == 0 and not ign and len(L) != d
+            ctx = " after another plugin instance was destroyed" if seen_del and any(st[0] in (":e", ":i") for st in ex) else ""
             if nleak != (1 if want else 0):
-                return "verdict wrong (%s leak failure) for a test with %s" % ("missing" if want else "unwanted", cls)
+                return "verdict wrong (%s leak failure) for a test with %s%s" % ("missing" if want else "unwanted", cls, ctx)
             if nfail != own + nleak:
                 return "failure count wrong for a test with " + cls
             if want and sorted(ents) != sorted(L):
                 return "report lists the wrong blocks (%s)" % ("foreign" if set(ents) - set(L) else "missing")
             base += allocs(ex)
-        return "final report / stray failures wrong"
+            seen_del = seen_del or any(st[0] == ":pd" for st in tt[0] + m_executed(tt))
+        stray, empty = int(t[i], 16), int(t[i + 1], 16)
+        ents, i = ents_at(i + 5)
+        out = leaked(1 + allocs(pre), trace(tests, tail))
+        if stray or bool(empty) != (len(out) == tbd) or (not empty and sorted(ents) != sorted(out)):
+            return "final report / stray failures wrong"
+        # the further instances
+        ins = Insts()
+        dem = [d for d in (ins.step(st)[1] for st in trace(tests, tail)) if d]
+        n = int(t[i], 16)
+        i += 1
+        if n != len(dem):
+            return "another plugin instance: number of observations"
+        for d in dem:
+            kind, j = int(t[i], 16), int(t[i + 1], 16)
+            if d[0] == "post":
+                nfail, nleak = int(t[i + 2], 16), int(t[i + 3], 16)
+                ents, i = ents_at(i + 7)
+                L = leaked(d[2], d[3])
+                if kind != 0 or j != d[1] or nleak != (1 if L else 0) or nfail != nleak:
+                    return "another plugin instance: verdict of its own test wrong (%s leak failure)" % ("missing" if L else "unwanted")
+                if L and sorted(ents) != sorted(L):
+                    return "another plugin instance: report of its own test lists the wrong blocks"
+            else:
+                empty = int(t[i + 2], 16)
+                ents, i = ents_at(i + 6)
+                if kind != 1 or j != d[1] or bool(empty) != (len(d[2]) == d[3]):
+                    return "another plugin instance: FinalReport %s (blocks obtained since its construction)" % ("silent" if empty else "not silent")
+                if not empty and sorted(ents) != sorted(d[2]):
+                    return "another plugin instance: FinalReport lists the wrong blocks"
+        return "observation differs"
     except Exception:
         return "malformed observation"
 
@@ -613,12 +711,21 @@ def shrink(s):
         cands.append((mode, tbd, pre[:k] + pre[k + 1:], tests, tail))
     if tbd:
         cands.append((mode, 0, pre, tests, tail))
+    slots = sorted({st[1] for t in tests for p in t for st in p if is_inst(st)} | {st[1] for st in tail if is_inst(st)})
+    for j in slots:           # without plugin instance j
+        def drop(l):
+            return [st for st in l if not (is_inst(st) and st[1] == j)]
+        cands.insert(0, (mode, tbd, pre, [[drop(p) for p in t] for t in tests], drop(tail)))
     for i, t in enumerate(tests):
         for p in range(6):
             for k, st in enumerate(t[p]):
                 if st[0] in (":a", ":r") and st[2] > 1:
                     t2 = [list(x) for x in t]
                     t2[p][k] = (st[0], st[1], 1) + tuple(st[3:])
+                    cands.append((mode, tbd, pre, tests[:i] + [t2] + tests[i + 1:], tail))
+                elif st[0] in (":pa", ":pr") and st[3] > 1:
+                    t2 = [list(x) for x in t]
+                    t2[p][k] = (st[0], st[1], st[2], 1)
                     cands.append((mode, tbd, pre, tests[:i] + [t2] + tests[i + 1:], tail))
     for c in cands:
         if py_valid(c[2], c[3], c[4]):
@@ -636,14 +743,28 @@ LEVEL_TEXT = ("Machine-checked (Coq) theorems over an executable model of Memory
               "nothing; declarations do not carry over (state invariant and a two-program theorem); the table before every pre-action is "
               "exactly the text's outstanding set (none stamped checking); the final report is silent iff outstanding = k and lists exactly "
               "the blocks obtained since the plugin exists. All right-hand sides are defined on the program text, not on the table; the "
-              "oracle `spec` is proved equivalent to those text-level demands. Tied to the code by a differential run of the extracted model "
+              "oracle `spec` is proved equivalent to those text-level demands. SEVERAL PLUGIN INSTANCES (C07_ModelM.v / C07_Multi.v): the "
+              "static firstPlugin_ is state of the model (serial of the object it points to); proved for every sequence of constructions, "
+              "destructions and other statements: it is written once and is the first plugin constructed since it was NULL; the macros change "
+              "the members of exactly that object; with the runner's plugin constructed first, every test's failures, verdict, report and the "
+              "final report of a program with statements about other instances anywhere (construct on a private / on the runner's detector, "
+              "destroy, allocate through the private detector, the instance's own pre/postTestAction and FinalReport) are those of the program "
+              "without them (`mrun` main part = `run (erase s)`), so the table holds for tests that use the macros after other instances came "
+              "and went; every instance's detector is `enabled` from its construction whenever none of its preTestActions is pending, its "
+              "FinalReport(k) is silent iff the blocks obtained through its detector since the construction and not released number k and lists "
+              "exactly those otherwise, and its own postTestAction follows the same table for the statements since its preTestAction. Tied to the code by a differential run of the extracted model "
               "against the real plugin and detector in a private registry (local detector, and global detector through new/new[]/malloc/"
               "realloc), with the extracted model-free spec judging the implementation.")
 LEVEL_NOTE = ("Trusted: Coq kernel, extraction, harness, generator. Modelled not verified: the C++ itself; FAIL's exception/longjmp by its "
               "contract (leaves the phase). Not covered: reports longer than the 4096-byte buffer (C14; the oracle then demands only "
               "subset + total), enable()/disable() calls on the detector inside a test (blocks obtained after them are not stamped "
               "`checking`), the branch taken when new/delete overloads are off (warning only), separate-process runs, memory misuse inside "
-              "a test (C06), allocation numbers beyond 2^32. After a run WITH failures the harness empties the detector's text buffer before "
+              "a test (C06), allocation numbers beyond 2^32; a plugin constructed on the runner's detector INSIDE a test (its constructor's enable() takes "
+              "the detector out of the test's checking period on the real code too: later blocks of that test are not charged to it -- treated as "
+              "the test calling enable(), see example_shared_in_window_not_valid); the macros after the first plugin's death (dangling "
+              "firstPlugin_); pre/postTestAction, FinalReport and allocations through an instance that shares the runner's detector; "
+              "destroyGlobalDetectorAndTurnOffMemoryLeakDetectionInDestructor; the constructor/destructor are modelled by hand (not in the "
+              "translated-source tie). After a run WITH failures the harness empties the detector's text buffer before "
               "FinalReport (the runner never prints the final report then; the buffer would still hold the last leak report).")
 TECHNIQUE = "Coq proof over hand-written executable model + extracted-model/implementation correspondence check (differential)"
 READY = True
